@@ -9,6 +9,13 @@
     map) and compared with the Coq model of the site, whose order-independence is proved in Props/C05.v.
       outputs of two orders differ              -> VIOLATION (the property itself, replayable on the driver)
       outputs agree but differ from the model   -> broken tie
+(c) MinHash / LSH stage (hook det_minhash): signatures, band keys, candidate sets and estimates of feature sets whose distinct
+    feature counts sweep 10, 100, 255, 256, 257, 300, 500, 1000 (more in the thorough tier) and of the fragments of generated LARGE
+    functions, repeated in one process and in fresh processes: any difference -> VIOLATION; the common answer must be the
+    MinHash of the SET (order/repetition independent, element-wise minimum over a union) -> else broken tie.
+    End to end: families of near-identical large functions (LSH feature counts just above 256 and upwards, measured through the
+    hook) analysed 4-5 times with `lsh_enabled = "true"` and several lsh_similarity_threshold values (default, 0.78, ...);
+    thorough tier also LSH auto mode (lsh_auto_threshold lowered to 3 fragments). Reports must be identical.
 """
 import json
 import os
@@ -570,6 +577,256 @@ def depth_repeat_part(ck, tier):
     return len(graphs) * reps
 
 
+# ----------------------------------------------------------------------------------------------
+# (c) MinHash / LSH stage: signatures, band keys and candidate sets of LARGE feature sets
+# ----------------------------------------------------------------------------------------------
+# distinct-feature counts: around every power of two a sampling / bucketing cut-off could sit at, and far above
+LATTICE = (10, 100, 255, 256, 257, 300, 500, 1000)
+LATTICE_MORE = (1, 2, 63, 64, 65, 127, 128, 129, 384, 511, 512, 513, 750, 2000, 4096)
+LSH_PARAMS = [(128, 32, 4), (64, 16, 4), (120, 24, 5), (32, 32, 1)]     # (hash functions, bands, rows); the first is the default
+
+
+def feature_family(prefix, n):
+    """Five feature lists over n distinct features: A; A reordered with repetitions (the same set); A with ~3 % of the features
+    replaced (a near-duplicate); B and C with B u C = A."""
+    a = ["%s%d" % (prefix, i) for i in range(n)]
+    dup = a[::-1] + a[::3]
+    k = max(1, n // 33)
+    near = a[:n - k] + ["%sx%d" % (prefix, i) for i in range(k)]
+    b, c = a[:n // 2 + n // 5 + 1], a[n // 3:]
+    return [a, dup, near, b, c]
+
+
+def big_families(ck, tier):
+    """Families of near-identical large functions whose LSH feature counts (measured through the hook) sit just above 256 and
+    then spread up to ~1.5x (quick) / ~2.5x (thorough). Returns (files, [(family, lines, features)])."""
+    import random
+    rng = ck.rng
+    ladder = list(range(70, 126, 5)) if tier == "quick" else list(range(70, 126, 5)) + [135, 145, 160]
+    cands = [(ln, rng.randrange(1 << 30)) for ln in ladder for _ in range(2)]
+    reqs = [{"op": "det_minhash", "files": [{"path": "c.py", "text": c05proj.big_family(random.Random(sd), "m", ln, 1)[0][1]}],
+             "hashes": 8, "bands": 2, "rows": 4, "repeat": 1} for ln, sd in cands]
+    res = lib.driver(reqs)
+    sized = []
+    for (ln, sd), r in zip(cands, res):
+        if "error" in r or not r.get("counts"):
+            ck.broken_ties.append("det_minhash cannot take the fragments of a generated %d-line function: %s" % (ln, r.get("error")))
+            continue
+        sized.append((max(r["counts"]), ln, sd))
+    targets = (262, 290) if tier == "quick" else (258, 270, 285, 300, 330, 380)
+    chosen, files, info = [], {}, []
+    for t in targets:
+        pool = [x for x in sized if x[0] > 256 and x not in chosen]
+        if not pool:
+            break
+        chosen.append(min(pool, key=lambda x: (abs(x[0] - t), x[1])))
+    # one family below the lattice point as a control (<= 256 features)
+    small = [x for x in sized if x[0] <= 256]
+    if small:
+        chosen.append(max(small))
+    for f, (cnt, ln, sd) in enumerate(chosen):
+        fam = "f%02d" % f
+        for nm, text in c05proj.big_family(random.Random(sd), fam, ln, 3):
+            files["%s.py" % nm] = text
+        info.append((fam, ln, cnt))
+    return files, info
+
+
+def minhash_part(ck, tier, big_files):
+    """The same det_minhash requests in several fresh processes, each repeating the computation: every signature, band key,
+    candidate set and estimate must be the same everywhere (the property); and the signature must be the MinHash of the SET
+    (independent of order / repetitions, element-wise minimum over a union) - the definition the fixed-seed mechanism relies on."""
+    rng = ck.rng
+    quick = tier == "quick"
+    reps = 3 if quick else 6
+    nproc = 2 if quick else 4
+    reqs, metas = [], []
+    sizes = LATTICE if quick else tuple(sorted(LATTICE + LATTICE_MORE))
+    for n in sizes:
+        prefix = rng.choice(["sub:2:", "sub:3:", "kgram:If:Compare:", "type:", "pattern:"]) + "%04x:" % rng.randrange(1 << 16)
+        params = [LSH_PARAMS[0], rng.choice(LSH_PARAMS[1:])] if quick else LSH_PARAMS
+        for (h, b, r) in params:
+            reqs.append({"op": "det_minhash", "sets": feature_family(prefix, n), "hashes": h, "bands": b, "rows": r, "repeat": reps})
+            metas.append({"kind": "sets", "n": n, "prefix": prefix, "params": (h, b, r)})
+    if big_files:
+        for (h, b, r) in ([LSH_PARAMS[0]] if quick else LSH_PARAMS[:3]):
+            reqs.append({"op": "det_minhash", "files": [{"path": n, "text": t} for n, t in sorted(big_files.items())],
+                         "hashes": h, "bands": b, "rows": r, "repeat": reps})
+            metas.append({"kind": "files", "params": (h, b, r)})
+    with ThreadPoolExecutor(max_workers=nproc) as ex:
+        procs = list(ex.map(lambda _i: lib.driver(reqs), range(nproc)))
+    n_eval, n_diff, reported = 0, 0, 0
+    counts_seen = set()
+    for qi, (req, meta) in enumerate(zip(reqs, metas)):
+        answers = [pr[qi] for pr in procs]
+        if any("error" in a for a in answers):
+            ck.broken_ties.append("driver error on det_minhash (%s): %s" % (meta, [a.get("error") for a in answers][:2]))
+            continue
+        ref = answers[0]["outputs"][0]
+        ids, counts = answers[0]["ids"], answers[0]["counts"]
+        counts_seen.update(counts)
+        bad = None
+        for pi, a in enumerate(answers):
+            if a["ids"] != ids or a["counts"] != counts:
+                bad = bad or ("ids", 0, pi, 0, ids, a["ids"])
+            for k, o in enumerate(a["outputs"]):
+                n_eval += len(ids)
+                for part in ("sigs", "keys", "cands", "est"):
+                    if o[part] != ref[part] and bad is None:
+                        si = next(i for i in range(len(ids)) if o[part][i] != ref[part][i])
+                        bad = (part, si, pi, k, ref[part][si], o[part][si])
+        if bad:
+            n_diff += 1
+            part, si, pi, k, v0, v1 = bad
+            e = ck.match_known({"path": "site:minhash"})
+            if e:
+                ck.known_finding(e)
+                continue
+            reported += 1
+            if reported > 3:
+                continue
+            h, b, r = meta["params"]
+            hi = next((i for i, (x, y) in enumerate(zip(v0, v1)) if x != y), None) if isinstance(v0, list) else None
+            replay = {"kind": "minhash-differs-between-runs", "op": "det_minhash", "hashes": h, "bands": b, "rows": r,
+                      "fragment": ids[si], "distinct_features": counts[si], "part": part, "first_differing_index": hi,
+                      "run_a": "process 0, repetition 0", "run_b": "process %d, repetition %d" % (pi, k),
+                      "value_a": v0 if hi is None else v0[hi], "value_b": v1 if hi is None else v1[hi],
+                      "how": "echo '<request>' | build/bin/pyscn-verif   (twice, or with repeat >= 2)"}
+            if meta["kind"] == "sets":
+                replay["request_py"] = ("{'op':'det_minhash','hashes':%d,'bands':%d,'rows':%d,'repeat':3,'sets':[['%s%%d' %% i for i in range(%d)]]}"
+                                        % (h, b, r, meta["prefix"], meta["n"]))
+                replay["set"] = ["A", "A reordered with repetitions", "A with ~3% replaced", "B (B u C = A)", "C"][si]
+                if len(req["sets"][si]) <= 600:
+                    replay["features"] = req["sets"][si]
+            else:
+                fn = ids[si].rsplit(":", 1)[0]
+                replay["file"] = fn
+                replay["source"] = big_files.get(fn)
+            ck.violation("the MinHash/LSH stage gives different %s for the same fragment (%s, %d distinct features; %d hash functions, "
+                         "%d bands x %d rows) in two computations on the same input: %s vs %s"
+                         % ({"sigs": "signatures", "keys": "band keys", "cands": "candidate sets", "est": "similarity estimates",
+                             "ids": "fragment ids"}[part], ids[si], counts[si], h, b, r,
+                            json.dumps(replay["value_a"])[:120], json.dumps(replay["value_b"])[:120]), replay, independent=True)
+            continue
+        # the definition (on the common answer): set semantics, union law, estimate, candidates
+        sig = [[int(x, 16) for x in sg] for sg in ref["sigs"]]
+        if meta["kind"] == "sets":
+            if sig[1] != sig[0]:
+                ck.broken_ties.append("MinHash signature depends on order / repetitions of the feature list (n=%d, %s)" % (meta["n"], meta["params"]))
+            if [min(x, y) for x, y in zip(sig[3], sig[4])] != sig[0]:
+                ck.broken_ties.append("MinHash signature of a union is not the element-wise minimum of the parts' signatures "
+                                      "(n=%d distinct features, %s): the signature is not the minimum over ALL features" % (meta["n"], meta["params"]))
+        for i in range(len(ids)):
+            want = sorted((ids[j] for j in range(len(ids)) if set(ref["keys"][i]) & set(ref["keys"][j])), key=lambda x: x.encode())
+            if ref["cands"][i] != want:
+                ck.broken_ties.append("LSH candidates of %s are not the fragments sharing a band key, sorted: %s vs %s" % (ids[i], ref["cands"][i][:6], want[:6]))
+                break
+            est = [sum(1 for x, y in zip(sig[i], sig[j]) if x == y) / float(len(sig[i])) for j in range(len(ids))]
+            if ref["est"][i] != est:
+                ck.broken_ties.append("MinHash similarity estimate of %s is not the fraction of agreeing signature positions" % ids[i])
+                break
+    ck.cov["minhash_requests"] = len(reqs)
+    ck.cov["minhash_processes"] = nproc
+    ck.cov["minhash_repetitions_per_process"] = reps
+    ck.cov["minhash_fragment_signatures_compared"] = n_eval
+    ck.cov["minhash_feature_counts"] = sorted(counts_seen)
+    ck.cov["minhash_requests_differing"] = n_diff
+    ck.samples.append({"minhash": dict(reqs[0], sets="feature_family(%r, %d)" % (metas[0]["prefix"], metas[0]["n"])),
+                       "signature_head": procs[0][0].get("outputs", [{}])[0].get("sigs", [[]])[0][:3]})
+
+
+def big_cli_start(ck, tier, big_files, info):
+    """Repeated `pyscn analyze --select clones` with LSH forced on (several lsh_similarity_threshold values) on the project of large
+    near-identical functions; every run is its own process in its own copy, all started in the background."""
+    root = lib.fresh_dir("c05-big")
+    binary = os.path.join(lib.BIN, "pyscn")
+    src = os.path.join(root, "_src")
+    if tier == "quick":
+        # APTED on one pair of ~100-line functions costs ~1 s: the quick tier runs only the families above 256 features
+        # (the family below is compared at the hook level), two thresholds, 4 runs; the grid is in the thorough tier
+        keep = tuple("big_%s_" % f for f, _ln, c in info if c > 256)
+        big_files = {k: v for k, v in big_files.items() if k.startswith(keep)}
+        info = [x for x in info if x[2] > 256]
+    c05proj.write_project(big_files, src)
+    n = 4 if tier == "quick" else 5
+    ths = [None, 0.78] if tier == "quick" else [None, 0.65, 0.78, 0.9]
+    cfgs = []
+    for th in ths:
+        cfg = '[clones]\nlsh_enabled = "true"\n' + ("" if th is None else "lsh_similarity_threshold = %s\n" % th)
+        cfgs.append(("lsh-default" if th is None else "lsh-%s" % th, cfg))
+    if tier != "quick":
+        cfgs.append(("lsh-0.78-star", '[clones]\nlsh_enabled = "true"\nlsh_similarity_threshold = 0.78\ngrouping_mode = "star"\n'))
+        # auto mode takes the LSH path when the project has >= lsh_auto_threshold fragments (default 500: one run on 560 generated
+        # fragments takes > 5 minutes, so the threshold is lowered instead of the project enlarged)
+        cfgs.append(("lsh-auto-3", '[clones]\nlsh_enabled = "auto"\nlsh_auto_threshold = 3\nlsh_similarity_threshold = 0.78\n'))
+    ex = ThreadPoolExecutor(max_workers=8 if tier == "quick" else 12)
+
+    def one(name, cfg, i):
+        d = os.path.join(root, "%s-run%d" % (name, i), "proj")
+        shutil.copytree(src, d)
+        with open(os.path.join(d, ".pyscn.toml"), "w") as f:
+            f.write(cfg)
+        return c05proj.run_once(binary, d, ["--select", "clones"], (1, 2, 16, 2)[i % 4], timeout=900)
+
+    futs = {(name, i): ex.submit(one, name, cfg, i) for name, cfg in cfgs for i in range(n)}
+    return {"ex": ex, "futs": futs, "cfgs": cfgs, "n": n, "info": info, "files": big_files}
+
+
+def big_cli_finish(ck, st):
+    n, info = st["n"], st["info"]
+    runs, differing, pairs_seen = 0, 0, {}
+    for name, cfg in st["cfgs"]:
+        outs = [st["futs"][(name, i)].result() for i in range(n)]
+        runs += n
+        reps = [o[1] for o in outs]
+        if any(r is None for r in reps) or any(o[0] not in (0, 1) for o in outs):
+            ck.broken_ties.append("pyscn produced no report / failed on the large-function project with %s: rcs %s %s"
+                                  % (name, [o[0] for o in outs], [o[2][-200:] for o in outs if o[1] is None][:1]))
+            continue
+        cl = [r.get("clone") or {} for r in reps]
+        if not all((c.get("request") or {}).get("lsh_enabled") in (True, "true", "auto") for c in cl):
+            ck.broken_ties.append("the large-function runs did not take the LSH path (%s): request.lsh_enabled = %s"
+                                  % (name, [(c.get("request") or {}).get("lsh_enabled") for c in cl][:2]))
+        pairs_seen[name] = [len(c.get("clone_pairs") or []) for c in cl]
+        paths, detail = {}, {}
+        for i in range(1, n):
+            out = set()
+            c05proj.diff_paths(reps[0], reps[i], "", out, detail)
+            for p in out:
+                paths[p] = paths.get(p, 0) + 1
+        if not paths:
+            continue
+        differing += 1
+        unknown = []
+        for path in sorted(paths):
+            e = ck.match_known({"path": path})
+            if e:
+                ck.known_finding(e)
+            else:
+                unknown.append(path)
+        if unknown:
+            ck.violation("%d of %d runs of `pyscn analyze --json --no-open --select clones .` (LSH on: %s) on unchanged files - families of "
+                         "near-identical large functions, (family, lines, LSH features) = %s - differ from the first run; clone pairs "
+                         "per run %s; differing at: %s"
+                         % (max(paths[u] for u in unknown), n, cfg.replace("\n", "; "), info, pairs_seen[name], ", ".join(unknown[:10])),
+                         {"kind": "report-differs-between-runs", "project": "large-functions", "command": "pyscn analyze --json --no-open --select clones .",
+                          "config": cfg, "runs": n, "families": [{"family": f, "lines": ln, "lsh_features": c} for f, ln, c in info],
+                          "clone_pairs_per_run": pairs_seen[name], "paths": {u: paths[u] for u in unknown},
+                          "examples": {u: [str(x)[:300] for x in detail[u]] for u in unknown[:12]},
+                          "files": st["files"],
+                          "how": "write `files` into a directory, add .pyscn.toml with `config`, run the command several times, diff the "
+                                 "JSON reports ignoring generated_at/duration/version"}, independent=True)
+    st["ex"].shutdown()
+    ck.cov["big_cli_runs"] = runs
+    ck.cov["big_cli_option_sets"] = len(st["cfgs"])
+    ck.cov["big_cli_sets_with_differences"] = differing
+    ck.cov["big_cli_families"] = [{"family": f, "lines": ln, "lsh_features": c} for f, ln, c in info]
+    ck.cov["big_cli_clone_pairs_per_run"] = pairs_seen
+    ck.samples.append({"big_cli": "%d runs (%d per option set) of analyze --select clones, lsh_enabled=true, thresholds %s"
+                                  % (runs, n, [c[0] for c in st["cfgs"]])})
+    return runs
+
+
 def main(tier):
     ck = lib.Check("C05", tier)
     ck.prepare("C05.v", clean=(tier != "quick" and os.environ.get("VERIF_CLEAN") == "1"))
@@ -577,25 +834,42 @@ def main(tier):
     if not getattr(ck, "go_ok", False):
         ck.finish()
     model_ok = ck.make_ok or not any(f.startswith(("Det/", "Gen/")) for f in ck.failed_files)
+    big_files, big_info = big_families(ck, tier)
+    big = big_cli_start(ck, tier, big_files, big_info) if big_files else None     # runs in the background from here on
     sites_part(ck, tier, model_ok)
     ck.cov["maxdepth_repeats"] = depth_repeat_part(ck, tier)
+    minhash_part(ck, tier, big_files)
     t1 = time.time()
     projects = cli_part(ck, tier)
+    big_runs = big_cli_finish(ck, big) if big else 0
     if tier != "quick":
         race_part(ck, projects)
     ck.cov.update({
-        "evaluations": ck.cov.get("cli_runs", 0) + ck.cov.get("site_orders_evaluated", 0),
-        "distinct_nontrivial": ck.cov.get("cli_option_sets", 0) + ck.cov.get("site_cases", 0),
+        "evaluations": ck.cov.get("cli_runs", 0) + ck.cov.get("site_orders_evaluated", 0) + big_runs
+                       + ck.cov.get("minhash_fragment_signatures_compared", 0),
+        "distinct_nontrivial": ck.cov.get("cli_option_sets", 0) + ck.cov.get("site_cases", 0) + ck.cov.get("big_cli_option_sets", 0)
+                               + ck.cov.get("minhash_requests", 0),
         "rule": "reports of N runs on unchanged files must be identical after dropping timestamps/durations/version "
                 "(N = 6 quick, 30 thorough; GOMAXPROCS 1/2/16); every emission site must give one output for all arrival orders "
-                "and that output must equal the Coq model's",
+                "and that output must equal the Coq model's; MinHash signatures / LSH band keys / candidate sets / estimates of one "
+                "feature set must be identical over repetitions in one process and over fresh processes, and be the MinHash of the set "
+                "(order- and repetition-independent, element-wise minimum over a union); reports of 4 (thorough 5) runs with LSH forced on "
+                "on families of large near-identical functions must be identical",
         "input_distribution": "testdata/python copy + generated tie-rich projects (equal complexities, two/three terminators within "
                               "5 lines, equal CBO with 3 dependencies, 4+ two-cycles and 3 three-cycles, four equal-length import chains "
                               "with a hub exhausting the path budget, 3 clone groups x 3 copies); per site: 2-16 items with duplicated "
-                              "primary keys, all permutations up to 4 items, else identity/reverse/random",
+                              "primary keys, all permutations up to 4 items, else identity/reverse/random; MinHash: feature sets "
+                              "with 10/100/255/256/257/300/500/1000 distinct features (thorough: also 1..4096 around every power of two) x "
+                              "(hashes, bands, rows) in {(128,32,4) default, (64,16,4), (120,24,5), (32,32,1)}, each as A / A reordered with "
+                              "repetitions / near-duplicate / two parts with union A, plus the fragments of the generated large functions; "
+                              "large-function projects: families of 3 near-identical random 70-125 (thorough -160) line functions chosen "
+                              "by measured LSH feature count (quick 262/290, thorough 258..380, one control <= 256), lsh_enabled=true, "
+                              "lsh_similarity_threshold default/0.78 (thorough also 0.65, 0.9, star grouping), GOMAXPROCS 1/2/16; thorough: LSH auto "
+                              "mode with lsh_auto_threshold = 3 (a 500-fragment project costs > 5 min per run: not run)",
         "observable_orders": "Go randomises the start of every map range: with n >= 3 tied keys a missing tie-break shows up in 6 runs "
                              "with probability >= 1 - (1/3)^5; injected orders cover all n! orders for n <= 4",
-        "disagreements_checked": ck.cov.get("cli_sets_with_differences", 0) + ck.cov.get("site_order_dependences", 0),
+        "disagreements_checked": ck.cov.get("cli_sets_with_differences", 0) + ck.cov.get("site_order_dependences", 0)
+                                 + ck.cov.get("big_cli_sets_with_differences", 0) + ck.cov.get("minhash_requests_differing", 0),
         "timing_s": {"sites": round(t1 - t0, 1), "cli": round(time.time() - t1, 1)},
     })
     ck.trusted += [
